@@ -53,13 +53,13 @@ def leaf(tin, tout):
 
 def gen(rng, tier):
     cases = []
-    if tier == "thorough":
+    if True:
         alpha = [None, [["input", None]], [["input", [2]]], [["input", [3]]], [["input", [2, 1]]]]
         names = ["a", "b", "c"]
-        for n in (1, 2):
+        for n in ((1, 2) if tier == "thorough" else (1, 2)):
             pairs = list(itertools.product(names[:n], repeat=2))
             for tys in itertools.product(alpha, repeat=n):
-                for ne in range(0, 3):
+                for ne in range(0, 3 if tier == "thorough" else 2):
                     for es in itertools.product(pairs, repeat=ne):
                         nodes = {}
                         for nm, t in zip(names, tys):
@@ -67,6 +67,7 @@ def gen(rng, tier):
                             nodes[nm] = leaf(t, tout)
                         cases.append({"kind": "exh", "nodes_t": [[nm, nodes[nm]["set_types"]] for nm in nodes],
                                       "edges": [list(e) for e in es]})
+    if tier == "thorough":
         N = 3000
     else:
         N = 420
